@@ -41,7 +41,8 @@ VARIABLES
   max,      \* evaluation budget (nbEvalMax)
   obj,      \* [quad, inact, conv]: strictly convex quadratic / constraints inactive at the minimiser /
             \* conv: what the optimiser's stop condition watches: "f" the function value, "x" the abscissa,
-            \* "none" it is no minimiser (the backtracking line search only promises sufficient decrease)
+            \* "none" it is no minimiser (the backtracking line search only promises sufficient decrease);
+            \* bnd: the optimiser shortens its steps at simple bounds itself (BFGS), working one precision step inside them
   cnt,      \* optimiser's evaluation counter at the end of the last completed step of this optimize() (0: none yet)
   steps,    \* completed steps of this optimize()
   tol,      \* tolerance flag as last observed
@@ -76,13 +77,16 @@ FeasCode(c, b) == \/ ~b[1]
 FeasPoint(cs) == /\ Len(cs) = Len(box)
                  /\ \A i \in DOMAIN cs : FeasCode(cs[i], box[i])
 Constrained == \E i \in DOMAIN box : box[i][1]
+\* the point sits exactly on a bound
+OnBound(cs) == \E i \in DOMAIN cs : i \in DOMAIN box /\ box[i][1] /\ cs[i] \in {1, 3}
 \* the point stays clear of every bound
 ClearPoint(cs) == \A i \in DOMAIN cs : i \in DOMAIN box => (~box[i][1] \/ cs[i] = 2)
 
 IsRaise(r)  == r # "ok"
 \* the only exception the statement leaves room for: policy "keep" keeps the
 \* constraints on the optimiser's parameters, so stepping outside raises
-Licensed(r) == r = "raise:ConstraintException" /\ pol = "keep" /\ Constrained
+\* ... unless the optimiser handles the bounds itself: then it has to stay inside under every policy
+Licensed(r) == r = "raise:ConstraintException" /\ pol = "keep" /\ Constrained /\ ~obj.bnd
 
 \* ---------------------------------------------------------------- actions
 Init ==
@@ -179,7 +183,7 @@ Finish(r, ret, fv, re, feas, nb, t, q) ==
   /\ phase = "Running"
   /\ IF r = "ok"
      THEN /\ phase' = "Done"
-          /\ rep' = [ret |-> ret, fv |-> fv, re |-> re, feas |-> feas, fok |-> FeasPoint(feas), nb |-> nb, tol |-> t, q |-> q]
+          /\ rep' = [ret |-> ret, fv |-> fv, re |-> re, feas |-> feas, fok |-> FeasPoint(feas), onb |-> OnBound(feas), nb |-> nb, tol |-> t, q |-> q]
           /\ UNCHANGED badRaise
      ELSE /\ phase' = "Dead"
           /\ rep' = NoRep
@@ -231,7 +235,10 @@ FeasibleAlways == pol = "auto" => /\ ~infeas
 \* stopped by its own tolerance having used at most a tenth of its budget (so that no share of the
 \* budget handed to an inner optimiser can have been binding either):
 \* within KConv/1000 * sqrt(tolerance * max(1,|f*|)) * max(1,|m|) of the minimiser (sup norm)
-ConvApplies == HasRep /\ obj.quad /\ obj.inact /\ ~touched /\ obj.conv # "none" /\ rep.tol /\ rep.nb * 10 <= max
+\* The clamping excuse (touched) does not cover a bound-handling optimiser that ends exactly ON a bound: it works
+\* with the bounds moved one precision step inside, so it can only get there by a step that escaped its own shortening.
+ConvApplies == /\ HasRep /\ obj.quad /\ obj.inact /\ obj.conv # "none" /\ rep.tol /\ rep.nb * 10 <= max
+               /\ (~touched \/ (obj.bnd /\ rep.onb))
 Converged == ConvApplies => rep.q <= (IF obj.conv = "x" THEN KConvX ELSE KConv)
 
 \* the point whose abscissa lies (weakly) between the other two has the lowest value
@@ -260,13 +267,14 @@ B2 == <<TRUE, FALSE, TRUE>>      \* lower bound excluded
 B3 == <<TRUE, TRUE, FALSE>>      \* upper bound excluded
 Boxes1 == {<<B0>>, <<B1>>, <<B2>>}
 Boxes2 == {<<B0, B0>>, <<B1, B0>>, <<B2, B3>>}
-ObjsAll == {[quad |-> TRUE, inact |-> TRUE, conv |-> "f"], [quad |-> FALSE, inact |-> TRUE, conv |-> "f"],
-            [quad |-> TRUE, inact |-> TRUE, conv |-> "x"], [quad |-> TRUE, inact |-> TRUE, conv |-> "none"]}
+ObjsAll == {[quad |-> TRUE, inact |-> TRUE, conv |-> "f", bnd |-> FALSE], [quad |-> FALSE, inact |-> TRUE, conv |-> "f", bnd |-> FALSE],
+            [quad |-> TRUE, inact |-> TRUE, conv |-> "x", bnd |-> FALSE], [quad |-> TRUE, inact |-> TRUE, conv |-> "none", bnd |-> FALSE],
+            [quad |-> TRUE, inact |-> TRUE, conv |-> "f", bnd |-> TRUE]}
 BoxesL == {<<B1>>}
 BoxesQ == {<<B0>>, <<B2>>}
 BoxesQ1 == {<<B2>>}
-ObjsOne == {[quad |-> TRUE, inact |-> TRUE, conv |-> "f"]}
-ObjsTwo == {[quad |-> TRUE, inact |-> TRUE, conv |-> "f"], [quad |-> TRUE, inact |-> TRUE, conv |-> "x"]}
+ObjsOne == {[quad |-> TRUE, inact |-> TRUE, conv |-> "f", bnd |-> FALSE]}
+ObjsTwo == {[quad |-> TRUE, inact |-> TRUE, conv |-> "f", bnd |-> FALSE], [quad |-> TRUE, inact |-> TRUE, conv |-> "x", bnd |-> TRUE]}
 \* What the AbstractOptimizer template plus a well-behaved doStep() produce.
 Ranks  == 0..MaxRank
 Codes  == {0, 1, 2, 3, 6}
@@ -280,7 +288,7 @@ DInitBegin == \E f0 \in Ranks : \E p \in {q \in Points : FeasPoint(q)} : InitBeg
 DEval      == /\ pend < MaxInner
               /\ \E p \in DesignPoints, r \in Ranks : Eval(Seq1(p), r)
 DInitEnd   == \/ InitEnd("ok")
-              \/ pol = "keep" /\ Constrained /\ InitEnd("raise:ConstraintException")
+              \/ Licensed("raise:ConstraintException") /\ InitEnd("raise:ConstraintException")
 DOptEarly  == OptEarly("raise:Exception")
 DRebox     == \E b \in Boxes : Rebox(b, obj.inact)
 DOptBegin  == OptBegin(held)
@@ -295,9 +303,9 @@ DFinish    == /\ phase = "Running"
               /\ ~(cnt + 1 < max /\ ~tol)
               /\ \E p \in {q \in Points : pol = "auto" => FeasPoint(q)} :
                     \* stopping by tolerance means being at the minimiser; a budget stop may end anywhere
-                    \E q \in {0} \cup (IF tol /\ (cnt + 1) * 10 <= max /\ ~touched THEN {} ELSE {KConv + 1, KConvX + 1}) :
+                    \E q \in {0} \cup (IF tol /\ (cnt + 1) * 10 <= max /\ (~touched \/ (obj.bnd /\ OnBound(Seq1(p)))) THEN {} ELSE {KConv + 1, KConvX + 1}) :
                        Finish("ok", held, held, held, Seq1(p), cnt + 1, tol, q)
-DRaise     == /\ phase = "Running" /\ pol = "keep" /\ Constrained
+DRaise     == /\ phase = "Running" /\ Licensed("raise:ConstraintException")
               /\ Finish("raise:ConstraintException", NoRank, NoRank, NoRank, <<>>, cnt + 1, tol, 0)
 DMStepEnd  == MStepEnd("ok")
 DBracket   == \E xs \in [1..3 -> 0..2], fs \in [1..3 -> Ranks] :
